@@ -65,6 +65,9 @@ def handleSched (l : Line) : List Verdict :=
       (if logoutOk && followauth then [("C05.authenticated_after_logout", "the old cookie is authenticated after a successful logout")] else []) ++
       (if !crashed && dup then [("C07.token_presented_twice." ++ store, s!"presented {presented}")] else []) ++
       (if !crashed && maxinflight > 1 then [("C07.concurrent_grants." ++ store, s!"{maxinflight} refresh grants in flight at once")] else []) ++
+      (if !crashed && (presented.filter fun s => s.endsWith "/ok").length > 1 then
+         [("C07.grants_within_cooldown." ++ store, s!"more than one successful refresh grant within one schedule: {presented}"),
+          ("C08.during_cooldown", s!"a refresh grant was performed while the cooldown of the previous one was running: {presented}")] else []) ++
       (if exists_ && store == "redis" && atn != "undecryptable" && genOf atn != genOf rtn then [("C07.pair_split", s!"stored {atn} with {rtn}")] else []) ++
       (if !crashed && exists_ && store == "redis" && !(uptokens.all fun t => t == "-" || t == "at0" || t == atn) then [("C07.served_other_token", s!"upstream saw {uptokens}, stored {atn}")] else []) ++
       (if exists_ && store == "redis" && ttl ≤ 0 then [("C10.no_ttl.session", "session entry without expiry at the end of the schedule")] else []) ++
